@@ -1,4 +1,5 @@
 import CandidModel.Driver.Leb
+import CandidModel.Driver.Principal
 /-
   Line-protocol driver.  One request per line: `<op>\t<arg>\t<arg>…`; one answer per line:
   `<model answer>\t<spec answer>` (or `bad-op` for what no handler accepts — never a default).
@@ -6,7 +7,7 @@ import CandidModel.Driver.Leb
 open Candid Candid.Driver
 
 def handlers : List (String → List String → Option String) :=
-  [handleLeb]
+  [handleLeb, handlePrincipal]
 
 def answer (line : String) : String :=
   match line.splitOn "\t" with
